@@ -108,6 +108,8 @@ def _mk_ew(name):
 
     def ref(z):
         f = e['f']
+        if name == 'gammaln' and not np.iscomplexobj(z[0]):
+            f = scipy.special.gammaln       # log|Gamma| on the reals (loggamma is its complex continuation from x > 0)
         return None if f is None else f(z[0])
     op('ew:' + name, gen, call, ref, tags=('elementwise',))
 
@@ -269,7 +271,8 @@ op('sum_axis', _gen_sum_axis, lambda a: algopy.sum(a[0], axis=a[1]), lambda z: n
 op('prod', lambda rng, D, P, t: [U(rand_coeffs(rng, (D, P, rng.randint(1, 4)), -2, 2))],
    lambda a: algopy.prod(a[0]), lambda z: np.prod(z[0]), tags=('shape',))
 op('transpose', lambda rng, D, P, t: [U(_gen_mat(rng, D, P, t))], lambda a: a[0].T, lambda z: z[0].T, tags=('shape',))
-op('trace', lambda rng, D, P, t: [U(gen_square(rng, D, P, rng.randint(1, 3)))], lambda a: algopy.trace(a[0]),
+op('trace', lambda rng, D, P, t: [U(gen_square(rng, D, P, rng.randint(1, 3)) if rng.random() < 0.5 else
+                                    rand_coeffs(rng, (D, P, rng.randint(1, 5), rng.randint(1, 5)), -1, 1))], lambda a: algopy.trace(a[0]),
    lambda z: np.trace(z[0]), tags=('shape', 'linalg'))
 
 
@@ -278,8 +281,17 @@ def _gen_reshape(rng, D, P, tier):
     return [U(rand_coeffs(rng, (D, P) + s, -2, 2)), Kp(list(t))]
 
 
+def _gen_fft_axis(rng, D, P, tier):
+    s = tuple(rng.randint(1, 4) for _ in range(rng.randint(1, 3)))
+    return [U(rand_coeffs(rng, (D, P) + s, -2, 2)), Kp(rng.randint(-len(s), len(s) - 1))]
+
+
+op('fft_axis', _gen_fft_axis, lambda a: algopy.fft.fft(a[0], axis=a[1]), lambda z: np.fft.fft(z[0], axis=z[1]), tags=('shape',))
+op('ifft_axis', _gen_fft_axis, lambda a: algopy.fft.ifft(a[0], axis=a[1]), lambda z: np.fft.ifft(z[0], axis=z[1]), tags=('shape',))
 op('reshape', _gen_reshape, lambda a: algopy.reshape(a[0], tuple(a[1])), lambda z: np.reshape(z[0], tuple(z[1])), tags=('shape',))
 op('diag', lambda rng, D, P, t: [U(rand_coeffs(rng, (D, P, rng.randint(1, 3)), -2, 2))], lambda a: algopy.diag(a[0]),
+   lambda z: np.diag(z[0]), tags=('shape',))
+op('diag:extract', lambda rng, D, P, t: [U(rand_coeffs(rng, (D, P, rng.randint(1, 4), rng.randint(1, 4)), -2, 2))], lambda a: algopy.diag(a[0]),
    lambda z: np.diag(z[0]), tags=('shape',))
 op('triu', lambda rng, D, P, t: [U(gen_square(rng, D, P, rng.randint(1, 3)))], lambda a: algopy.triu(a[0]),
    lambda z: np.triu(z[0]), tags=('shape',))
@@ -355,6 +367,10 @@ op('cholesky', lambda rng, D, P, t: [U(gen_square(rng, D, P, rng.randint(1, 3), 
    lambda a: algopy.cholesky(a[0]), lambda z: np.linalg.cholesky(z[0]), tags=('linalg', 'factor'))
 op('lu', lambda rng, D, P, t: [U(gen_square(rng, D, P, rng.randint(1, 3)))],
    lambda a: algopy.lu(a[0]), lambda z: scipy.linalg.lu(z[0]), tags=('linalg', 'factor'))
+op('lu2', lambda rng, D, P, t: [U(gen_square(rng, D, P, rng.randint(1, 3)))],
+   lambda a: UTPM.lu2(a[0]), None, tags=('linalg', 'factor'))
+op('lu_factor', lambda rng, D, P, t: [U(gen_square(rng, D, P, rng.randint(1, 3)))],
+   lambda a: UTPM.lu_factor(a[0]), None, tags=('linalg', 'factor'))
 op('eigh', lambda rng, D, P, t: [U(gen_square(rng, D, P, rng.randint(1, 3), 'sym'))],
    lambda a: algopy.eigh(a[0]), lambda z: np.linalg.eigh(z[0]), tags=('linalg', 'factor'))
 def _gen_qr_rankdef(rng, D, P, tier):
